@@ -115,6 +115,11 @@ def names(r, kind, n, taken):
                 continue
         else:
             w = kind_prefix + camel(r)
+        if w[:1].islower():
+            # an element's name with a small first letter is its own "small first letter" variant - the name the templates
+            # give the member / instance that belongs to it (self.<guardName> next to def <GUARDNAME>): the tool's naming
+            # convention is UpperCamelCase
+            w = w[:1].upper() + w[1:]
         # (two names that differ only in the case of their first letter - NoneEject / noneEject - are one identifier for the
         #  back ends: every element also appears with a small first letter, as instance or member name)
         small = lambda x: x[:1].lower() + x[1:]
